@@ -24,7 +24,9 @@ type UnifiedMemoryModelRegistry struct {
 	globalUnified     *xsync.Map[string, *domain.UnifiedModel]         // UnifiedID -> UnifiedModel (merged across endpoints)
 	endpoints         *xsync.Map[string, *domain.Endpoint]             // URL -> Endpoint mapping
 	modelEndpointSets *xsync.Map[string, *xsync.Map[string, struct{}]] // ModelID -> Set of endpoint URLs (cached for fast lookup)
+	listingVersions   map[string]uint64                                // Endpoint URL -> version of its latest listing (guarded by listingMutex)
 	unificationMutex  sync.Mutex
+	listingMutex      sync.Mutex
 }
 
 // NewUnifiedMemoryModelRegistry creates a new registry with unification support
@@ -87,6 +89,7 @@ func NewUnifiedMemoryModelRegistry(logger logger.StyledLogger, unificationConfig
 		globalUnified:       xsync.NewMap[string, *domain.UnifiedModel](),
 		endpoints:           xsync.NewMap[string, *domain.Endpoint](),
 		modelEndpointSets:   xsync.NewMap[string, *xsync.Map[string, struct{}]](),
+		listingVersions:     make(map[string]uint64),
 	}
 }
 
@@ -108,10 +111,17 @@ func (r *UnifiedMemoryModelRegistry) RegisterModelsWithEndpoint(ctx context.Cont
 
 // RegisterModels overrides the base method to add unification
 func (r *UnifiedMemoryModelRegistry) RegisterModels(ctx context.Context, endpointURL string, models []*domain.ModelInfo) error {
-	// First, register models normally
+	// First, register models normally. The listing gets a version so that the background
+	// unification below can tell whether a newer listing (or a removal) has superseded it:
+	// goroutines started for two quick updates of one endpoint may run in either order.
+	r.listingMutex.Lock()
 	if err := r.MemoryModelRegistry.RegisterModels(ctx, endpointURL, models); err != nil {
+		r.listingMutex.Unlock()
 		return err
 	}
+	r.listingVersions[endpointURL]++
+	version := r.listingVersions[endpointURL]
+	r.listingMutex.Unlock()
 
 	// Invalidate any cached endpoint sets for these models since they're being updated
 	for _, model := range models {
@@ -121,15 +131,23 @@ func (r *UnifiedMemoryModelRegistry) RegisterModels(ctx context.Context, endpoin
 	}
 
 	// Then unify them
-	go r.unifyModelsAsync(ctx, endpointURL, models)
+	go r.unifyModelsAsync(ctx, endpointURL, models, version)
 
 	return nil
 }
 
 // unifyModelsAsync performs model unification in the background
-func (r *UnifiedMemoryModelRegistry) unifyModelsAsync(ctx context.Context, endpointURL string, models []*domain.ModelInfo) {
+func (r *UnifiedMemoryModelRegistry) unifyModelsAsync(ctx context.Context, endpointURL string, models []*domain.ModelInfo, version uint64) {
 	r.unificationMutex.Lock()
 	defer r.unificationMutex.Unlock()
+
+	// a newer listing or a removal of this endpoint has been recorded since: this one is stale
+	r.listingMutex.Lock()
+	stale := r.listingVersions[endpointURL] != version
+	r.listingMutex.Unlock()
+	if stale {
+		return
+	}
 
 	// Get or create endpoint object
 	endpoint, exists := r.endpoints.Load(endpointURL)
@@ -153,6 +171,14 @@ func (r *UnifiedMemoryModelRegistry) unifyModelsAsync(ctx context.Context, endpo
 	for _, unified := range unifiedModels {
 		modelGroups[unified.ID] = append(modelGroups[unified.ID], unified)
 	}
+
+	// A new listing replaces the endpoint's previous one: unified models it no longer lists
+	// must stop naming it as a source, otherwise lookups keep routing to it
+	current := make(map[string]bool, len(modelGroups))
+	for id := range modelGroups {
+		current[id] = true
+	}
+	r.dropEndpointFromUnified(endpointURL, current)
 
 	// Merge models across endpoints
 	for id, group := range modelGroups {
@@ -307,16 +333,33 @@ func (r *UnifiedMemoryModelRegistry) GetUnifiedStats(ctx context.Context) (Unifi
 // RemoveEndpoint overrides to clean up unified models
 func (r *UnifiedMemoryModelRegistry) RemoveEndpoint(ctx context.Context, endpointURL string) error {
 	// First remove from base registry
+	r.listingMutex.Lock()
 	if err := r.MemoryModelRegistry.RemoveEndpoint(ctx, endpointURL); err != nil {
+		r.listingMutex.Unlock()
 		return err
 	}
+	r.listingVersions[endpointURL]++ // supersedes unifications still queued for earlier listings
+	r.listingMutex.Unlock()
 
 	// Clean up unified models
 	r.unificationMutex.Lock()
 	defer r.unificationMutex.Unlock()
 
 	// Remove endpoint from all unified models
+	r.dropEndpointFromUnified(endpointURL, nil)
+
+	return nil
+}
+
+// dropEndpointFromUnified removes endpointURL as a source from every unified model except those
+// whose id is in keep, deleting models that lose their last source and refreshing the cached
+// endpoint sets. Callers must hold unificationMutex.
+func (r *UnifiedMemoryModelRegistry) dropEndpointFromUnified(endpointURL string, keep map[string]bool) {
 	r.globalUnified.Range(func(id string, model *domain.UnifiedModel) bool {
+		if keep[id] {
+			return true
+		}
+
 		// we're capturing model metadata BEFORE mutation to avoid accessing empty slices
 		// when the last endpoint is removed (model.RemoveEndpoint empties SourceEndpoints)
 		sourceEndpoints := make([]domain.SourceEndpoint, len(model.SourceEndpoints))
@@ -359,8 +402,6 @@ func (r *UnifiedMemoryModelRegistry) RemoveEndpoint(ctx context.Context, endpoin
 		}
 		return true
 	})
-
-	return nil
 }
 
 // GetHealthyEndpointsForModel returns healthy endpoints that have a specific model
